@@ -13,6 +13,8 @@ import Juniper.Driver.C17
 import Juniper.Driver.C20
 import Juniper.Driver.Tree
 import Juniper.Driver.C07
+import Juniper.Driver.C13
+import Juniper.Driver.C14
 /-! `driver <model>`: runs one executable model behind the line protocol. Core-only (no Mathlib).
 Registration: one `import` line above and one `[("name", handler)],` line below per model
 (this file is merged with git's union driver, so keep one entry per line). -/
@@ -33,6 +35,9 @@ def handlers : List (String × Handler) := List.flatten [
   [("xtime", Juniper.Driver.C20.handler)],
   [("tree", Juniper.Driver.Tree.handler)],
   [("comb", Juniper.Driver.C07.handler)],
+  [("pardo", Juniper.Driver.C13.handler)],
+  [("parstream", Juniper.Driver.C14.S.handler)],
+  [("pariter", Juniper.Driver.C14.I.handler)],
   []]
 
 def main (args : List String) : IO UInt32 := do
